@@ -625,6 +625,21 @@ func (x *Exec) coerce(t Term, want *Sort) Term {
 	if r, ok := x.c().recPtrConv(t, want); ok {
 		return r
 	}
+	if want.Kind == KMap && t.Sort.Kind == KMap && want.Name != t.Sort.Name && want.Key.Name == t.Sort.Key.Name {
+		// map[K]*T assigned to a field whose element type is the cut view of the recursive type T (or back): same domain,
+		// same cardinality, values converted pointwise
+		c := x.c()
+		probe := Term{S: "k!m", Sort: t.Sort.Key}
+		if conv, ok := c.recPtrConv(app(t.Sort.Elem, "select", c.mapVals(t), probe), want.Elem); ok {
+			r := c.fresh("mapconv", want)
+			c.axiom(tEq(c.mapDom(r), c.mapDom(t)))
+			c.axiom(tEq(c.mapCard(r), c.mapCard(t)))
+			c.axiom(tEq(c.mapNil(r), c.mapNil(t)))
+			c.axiom(Term{S: fmt.Sprintf("(forall ((k!m %s)) (! (= (select %s k!m) %s) :pattern ((select %s k!m))))", t.Sort.Key.Name, c.mapVals(r).S, conv.S, c.mapVals(r).S), Sort: sortBool})
+			r.Go = t.Go
+			return r
+		}
+	}
 	if want.Kind == KErr && t.Sort.Kind != KErr {
 		// concrete value converted to error interface: fresh non-nil error determined by the value
 		r := x.c().fresh("errval", sortErr)
